@@ -196,9 +196,12 @@ MakeTradesF(st, req, nlv) ==
         keep   == {c \in imbal \ noprice : ~(Lt(RAbs(w(c)), req.thr) /\ Targeted(req, c))}
         sub    == {c \in keep : IsZero(qty(c))}
         unbuildable == {c \in keep : st.bid[c] = NaN \/ st.ask[c] = NaN}
-    IN  IF bad # {} \/ noprice # {} \/ unbuildable # {} THEN [out |-> "error", trades |-> <<>>]
-        ELSE IF sub # {} /\ SubLot = "raise" THEN [out |-> "error", trades |-> <<>>]
-        ELSE [out |-> "ok", trades |-> [c \in keep \ sub |-> qty(c)]]
+        \* contracts whose imbalance weight is EXACTLY the threshold (binary floating point may
+        \* land on either side unless the model's arithmetic is dyadic; the harness is told)
+        edge   == {c \in imbal \ noprice : Targeted(req, c) /\ RAbs(w(c)) = req.thr /\ ~IsZero(req.thr)}
+    IN  IF bad # {} \/ noprice # {} \/ unbuildable # {} THEN [out |-> "error", trades |-> <<>>, edge |-> {}]
+        ELSE IF sub # {} /\ SubLot = "raise" THEN [out |-> "error", trades |-> <<>>, edge |-> {}]
+        ELSE [out |-> "ok", trades |-> [c \in keep \ sub |-> qty(c)], edge |-> edge]
 
 RECURSIVE TransactAll(_, _, _)
 TransactAll(st, trades, cs) ==
@@ -212,7 +215,7 @@ TransactAll(st, trades, cs) ==
 \* result: [st, out \in {"ok","broke","error"}, pre, post, trades, interest, comm]
 RebalanceF(st, req, t) ==
     LET a == AccrueF(st, t, TRUE)
-        blank == [pre |-> NaN, post |-> NaN, trades |-> <<>>, comm |-> Zero]
+        blank == [pre |-> NaN, post |-> NaN, trades |-> <<>>, comm |-> Zero, edge |-> {}]
     IN  IF a.out = "error" THEN [st |-> a.st, out |-> "error", interest |-> Zero] @@ blank
         ELSE
         LET v == ValueF(a.st, TRUE)
@@ -224,7 +227,7 @@ RebalanceF(st, req, t) ==
                 LET x == TransactAll(v.st, m.trades, DOMAIN m.trades)
                     p == ValueF(x.st, TRUE)
                 IN  [st |-> p.st, out |-> p.out, interest |-> a.amount, pre |-> v.nlv,
-                     post |-> p.nlv, trades |-> m.trades, comm |-> x.comm]
+                     post |-> p.nlv, trades |-> m.trades, comm |-> x.comm, edge |-> m.edge]
 
 -----------------------------------------------------------------------------
 InitLedger == [bid |-> [c \in C |-> NaN], ask |-> [c \in C |-> NaN], alive |-> [c \in C |-> TRUE],
